@@ -1,4 +1,5 @@
 import TD.C06.Lemmas
+import TD.C06.LemmasPlan
 
 /-!
 # C06 — LIS log pass frame sets are exact; any sub-selection is a sub-matrix
@@ -52,6 +53,160 @@ example : rle01Tell (rle01Add (rle01Add (rle01Add [] 100 5 0) 200 5 0) 300 3 0) 
 /-- A record with zero frames breaks the lookup of every later frame (`ZeroDivisionError`, finding F22). -/
 theorem rle_lookup_zero_frames_fails :
     rle01Tell (rle01Add (rle01Add (rle01Add [] 100 5 0) 200 0 0) 300 5 0) 5 = .error .zeroDiv := by decide
+
+/-! ## The read/skip plan of one logical record -/
+
+/-- **Events cover**: for every frame plan (any channel sizes, indirect word or not), every channel list whose members
+exist and every non-empty frame slice `start < stop` (any step; 0 stands for None = 1), `genEvents` succeeds and,
+executed from the start of the record data, its read events read — in order — exactly the indirect word followed by
+the bytes of the selected channels (sorted, without duplicates) of the frames `range(start, stop, step)`; the total of
+read + skip ends exactly at the end of a selected frame `g < stop`. (`evBytes`/`evEnd` are the byte semantics of an
+event list; `extrapolate` events do not move.) -/
+theorem events_cover (p : Plan) (start stop step0 : Nat) (chans : List Nat)
+    (hch : ∀ c ∈ chans, c < p.numChannels) (hne : chans ≠ []) (hlt : start < stop) :
+    ∃ evs, genEvents p start stop step0 chans = .ok evs ∧
+      evBytes evs 0 = List.range' 0 p.indr ++
+        (rangeList start stop (if step0 = 0 then 1 else step0)).flatMap
+          (fun g => selBytes p (p.indr + g * p.frameSize) (sortDedup chans)) ∧
+      ∃ g, start ≤ g ∧ g < stop ∧ evEnd evs 0 = p.indr + (g + 1) * p.frameSize := by
+  have hstep : 0 < (if step0 = 0 then 1 else step0) := by split <;> omega
+  generalize hst : (if step0 = 0 then 1 else step0) = step at hstep
+  -- the checked channel list
+  have hsorted := sortDedup_sorted chans
+  cases hcs : sortDedup chans with
+  | nil =>
+    exfalso
+    cases chans with
+    | nil => exact hne rfl
+    | cons a as => have := (sortDedup_mem (a :: as) a).2 (List.mem_cons_self ..); rw [hcs] at this; simp at this
+  | cons c0 rest =>
+    rw [hcs] at hsorted
+    have hchk : checkChIdx p chans = .ok (c0 :: rest) := by
+      unfold checkChIdx
+      simp only [hcs]
+      cases hl : (c0 :: rest).getLast? with
+      | none => simp at hl
+      | some x =>
+        have hx : x ∈ c0 :: rest := List.mem_of_getLast? hl
+        have : x < p.numChannels := hch x ((sortDedup_mem chans x).1 (hcs ▸ hx))
+        simp [show ¬ x ≥ p.numChannels by omega]
+    unfold genEvents
+    simp only [hchk, hst, List.length_cons, gt_iff_lt, Nat.zero_lt_succ, hlt, and_self, if_true]
+    cases hr : retFrameEvents p (c0 :: rest) with
+    | mk pre r2 =>
+      obtain ⟨fevts, post⟩ := r2
+      simp only
+      have hspec := fun base => retFrameEvents_spec p c0 rest hsorted base pre fevts post hr
+      obtain ⟨_, _, hhead, hpre, hpost⟩ := hspec 0
+      have hB := fun base => (hspec base).1
+      have hE := fun base => (hspec base).2.1
+      have hL := lastP1_pos rest c0
+      have hfs : p.skipToChStart (lastP1 rest (c0 + 1)) + p.skipToFrameEnd (lastP1 rest (c0 + 1) - 1) = p.frameSize := by
+        have := skip_end p (lastP1 rest (c0 + 1) - 1)
+        rwa [Nat.sub_add_cancel hL] at this
+      have hpostS : sizIs post (p.skipToFrameEnd (lastP1 rest (c0 + 1) - 1)) := by
+        unfold sizIs; unfold skipIs at hpost
+        cases post with
+        | none => exact hpost
+        | some e => exact hpost.2
+      have hpreS : sizIs pre (p.skipToChStart c0) := by
+        unfold sizIs; unfold preIs at hpre
+        cases pre with
+        | none => simp only at hpre; subst hpre; exact skip_zero p
+        | some e => exact hpre.2.1
+      have hinter := merged_spec p pre post step (p.skipToChStart c0) (p.skipToFrameEnd (lastP1 rest (c0 + 1) - 1)) hstep hpreS hpostS
+      have hloop := frameLoop_spec p (c0 :: rest) fevts post (mergedPostFramePre p pre post step) stop step
+        (p.skipToChStart c0) (p.skipToChStart (lastP1 rest (c0 + 1))) (p.skipToFrameEnd (lastP1 rest (c0 + 1) - 1))
+        hstep hB hE hhead hfs hpost hinter (stop - start) start
+      -- the head part
+      cases pre with
+      | some pr =>
+        unfold preIs at hpre
+        simp only at hpre ⊢
+        obtain ⟨hty, hsz, _⟩ := hpre
+        refine ⟨_, rfl, ?_⟩
+        have hh : evBytes ((if p.indr > 0 then [(⟨.read, p.indr, none, none, none⟩ : Ev)] ++ (if start > 0 then [⟨.extrap, start, some start, none, none⟩] else []) else [])
+              ++ [⟨pr.ty, start * p.frameSize + pr.siz, some start, pr.cf, pr.ct⟩]) 0 = List.range' 0 p.indr ∧
+            evEnd ((if p.indr > 0 then [(⟨.read, p.indr, none, none, none⟩ : Ev)] ++ (if start > 0 then [⟨.extrap, start, some start, none, none⟩] else []) else [])
+              ++ [⟨pr.ty, start * p.frameSize + pr.siz, some start, pr.cf, pr.ct⟩]) 0 = p.indr + start * p.frameSize + p.skipToChStart c0 := by
+          by_cases hi : p.indr > 0
+          · by_cases hs : start > 0 <;> simp [hi, hs, evBytes, evEnd, hty, hsz] <;> omega
+          · have : p.indr = 0 := by omega
+            simp [hi, evBytes, evEnd, hty, hsz, this]
+        obtain ⟨hlB, g, hg1, hg2, hlE⟩ := hloop none (p.indr + start * p.frameSize + p.skipToChStart c0) hlt (Nat.le_refl _) (by simp)
+        constructor
+        · rw [evBytes_append, hh.1, hh.2, hlB]; simp
+        · exact ⟨g, hg1, hg2, by rw [evEnd_append, hh.2, hlE]⟩
+      | none =>
+        unfold preIs at hpre
+        simp only at hpre ⊢
+        subst hpre
+        have hA : p.skipToChStart 0 = 0 := skip_zero p
+        by_cases hs : start > 0
+        · simp only [hs, if_true]
+          refine ⟨_, rfl, ?_⟩
+          have hh : evBytes ((if p.indr > 0 then [(⟨.read, p.indr, none, none, none⟩ : Ev)] else []) ++ [⟨.skip, start * p.frameSize, some start, none, some 0⟩]
+                ++ (if p.indr > 0 then [(⟨.extrap, start, some start, none, none⟩ : Ev)] else [])) 0 = List.range' 0 p.indr ∧
+              evEnd ((if p.indr > 0 then [(⟨.read, p.indr, none, none, none⟩ : Ev)] else []) ++ [⟨.skip, start * p.frameSize, some start, none, some 0⟩]
+                ++ (if p.indr > 0 then [(⟨.extrap, start, some start, none, none⟩ : Ev)] else [])) 0 = p.indr + start * p.frameSize + p.skipToChStart 0 := by
+            by_cases hi : p.indr > 0
+            · simp [hi, evBytes, evEnd, hA]
+            · have : p.indr = 0 := by omega
+              simp [hi, evBytes, evEnd, hA, this]
+          obtain ⟨hlB, g, hg1, hg2, hlE⟩ := hloop none (p.indr + start * p.frameSize + p.skipToChStart 0) hlt (Nat.le_refl _) (by simp)
+          constructor
+          · rw [evBytes_append, hh.1, hh.2, hlB]; simp
+          · exact ⟨g, hg1, hg2, by rw [evEnd_append, hh.2, hlE]⟩
+        · have hs0 : start = 0 := by omega
+          subst hs0
+          simp only [Nat.lt_irrefl, if_false, List.nil_append]
+          refine ⟨_, rfl, ?_⟩
+          have hpd : (if p.indr > 0 then some p.indr else none : Option Nat).getD 0 = p.indr := by
+            by_cases hi : p.indr > 0
+            · simp [hi]
+            · simp [hi]; omega
+          obtain ⟨hlB, g, hg1, hg2, hlE⟩ := hloop (if p.indr > 0 then some p.indr else none) 0 hlt (Nat.le_refl _) (by rw [hpd, hA]; simp)
+          rw [hpd] at hlB
+          exact ⟨hlB, g, hg1, hg2, hlE⟩
+
+/-- **Reads stay inside the record**: if the record holds `F ≥ stop` frames, read + skip never pass its end. -/
+theorem events_inside_record (p : Plan) (start stop step0 F : Nat) (chans : List Nat)
+    (hch : ∀ c ∈ chans, c < p.numChannels) (hne : chans ≠ []) (hlt : start < stop) (hF : stop ≤ F) :
+    ∃ evs, genEvents p start stop step0 chans = .ok evs ∧ evEnd evs 0 ≤ p.indr + F * p.frameSize := by
+  obtain ⟨evs, h1, _, g, _, hg, hE⟩ := events_cover p start stop step0 chans hch hne hlt
+  refine ⟨evs, h1, ?_⟩
+  rw [hE]
+  have : (g + 1) * p.frameSize ≤ F * p.frameSize := Nat.mul_le_mul_right _ (by omega)
+  omega
+
+example : ∃ evs, genEvents ⟨4, [4, 2, 1, 8]⟩ 1 6 2 [3, 1, 1] = .ok evs ∧
+    evBytes evs 0 = [0, 1, 2, 3] ++ [23, 24, 26, 27, 28, 29, 30, 31, 32, 33] ++ [53, 54, 56, 57, 58, 59, 60, 61, 62, 63]
+      ++ [83, 84, 86, 87, 88, 89, 90, 91, 92, 93] ∧ evEnd evs 0 = 94 := ⟨_, rfl, by decide, by decide⟩
+
+/-! ## The EXTRAPOLATE branch of `setFrameSet` (what `implied X` rests on) -/
+
+/-- For the first loaded frame (`frInt = 0`) an extrapolation by `n` frames adds `n·spacing` to the value just read. -/
+theorem extrapolate_rule_first (d : Dfsr) (st : Store) (r : Run) (e : Ev) (x sp : Int)
+    (hty : e.ty = .extrap) (hfr : e.fr = some 0) (hx : r.fs.xvec[0]? = some (some x)) (hsp : r.fs.frameSpacing = some sp) :
+    (execEv d st r e).toOption.map (·.fs.xvec) = some (r.fs.xvec.set 0 (some (x + (e.siz : Int) * sp))) := by
+  have hlen : 0 < r.fs.xvec.length := by
+    cases hl : r.fs.xvec with
+    | nil => rw [hl] at hx; simp at hx
+    | cons a as => simp
+  unfold execEv
+  simp only [hty, hfr, ↓reduceIte, hx, hsp, hlen]
+  simp [Except.toOption]
+
+/-- For every later loaded frame (`frInt > 0`) the extrapolation starts from the X of the *previously loaded frame*
+`frInt - 1` — also when that frame belongs to the previous record and the current record's own first X has just been
+read into `frInt` (this is finding F7). -/
+theorem extrapolate_rule_later (d : Dfsr) (st : Store) (r : Run) (e : Ev) (frInt : Nat) (x sp : Int)
+    (hty : e.ty = .extrap) (hfr : e.fr = some frInt) (h0 : 0 < frInt) (hlen : frInt < r.fs.xvec.length)
+    (hx : r.fs.xvec[frInt - 1]? = some (some x)) (hsp : r.fs.frameSpacing = some sp) :
+    (execEv d st r e).toOption.map (·.fs.xvec) = some (r.fs.xvec.set frInt (some (x + (e.siz : Int) * sp))) := by
+  have hne : frInt ≠ 0 := by omega
+  unfold execEv
+  simp [hty, hfr, hx, hsp, hlen, hne, Except.toOption]
 
 /-! ## Loads do not depend on earlier loads -/
 
